@@ -10,11 +10,21 @@ Decided (necessary conditions visible in the shape of ResourceManager):
   R2  (create-once) the persistent store of cached resources is written after a suspension only under a membership
       test that is atomic with the write: no suspension between test and write, or both under one `async with`
       lock, or an in-flight entry is registered before the first suspension and later callers await it.
+      While such a window is open (the recorded finding of the pinned tree), the resources it can duplicate are those whose
+      creation suspends inside it.  That set is decided as an obligation of its own: in every implementation of the descriptor
+      method awaited in the window (`_Resource.resolve` -> `call` -> `_resolve_dependencies`, `_ResourceConfig.resolve`) each
+      suspension point is either the re-entrant resolution of a dependency (awaits the manager / hands it on) or runs only
+      under a test that the factory is a coroutine function (`inspect.iscoroutinefunction` / `isawaitable` / `iscoroutine`,
+      directly or through an attribute that only ever stores such a test).  A sync factory therefore runs inline, and a
+      cached sync-factory resource is created atomically.  An await on the sync branch or on the common path (to_thread,
+      run_in_executor, sleep, async with) puts sync factories into the open window as well: a different failure from the
+      recorded one, reported under its own key.
   R5  (sequential shape, T3) the key pushed on the cycle chain was tested absent under the same key; the chain push
       precedes the re-entrant await; every push is popped on every exit (also exceptional); what a
       resolution scope sets up before its `yield` is undone on every exit; a shared per-resolution cache is cleared
       when the depth returns to zero.
 Not decided: identity of objects at run time, factories that spawn tasks themselves, sync factories that block,
+a sync factory whose *dependency* is a coroutine factory (the re-entrant await is taken as suspending only if a dependency does),
 the full sequential algorithm on arbitrary dependency graphs (R3 of the design: not implemented), whether two
 parameters of one step share a non-cached dependency (R4 of the design: the statement does not fix it).
 """
@@ -26,7 +36,7 @@ from dataclasses import dataclass, field
 
 from ..astx import MUTATORS, atoms, call_name, dotted, expand, facts_at, has_fact, last
 from ..cfg import CFG, Node, exprs_in_node
-from ..index import AnchorError, FuncNode, ancestors, enclosing_function, parent, qualname_of, repo_root, walk_shallow
+from ..index import AnchorError, FuncNode, ancestors, enclosing_function, module_of, parent, qualname_of, repo_root, walk_shallow
 from ..report import VERIF, Check
 from ..selftest import Twin
 
@@ -43,6 +53,10 @@ EXPLANATION = (
     "suspension is dominated by a membership test on the store with no suspension between test and write, or test and write share "
     "an `async with` lock, or an in-flight table is written between the test and the first suspension and a dominating test on that "
     "table awaits the pending entry (raising instead of awaiting is not create-once).  "
+    "R2 (open window): when a window is not protected, every suspension point inside it is traced through the awaited descriptor method "
+    "(all classes of the package that implement it, and the coroutines of the class they await): it must be the re-entrant resolution of a "
+    "dependency or be guarded, on every path, by a coroutine-function test of the factory; anything else suspends for sync factories too "
+    "(`sync-factory-inline`), so cached sync-factory resources are duplicated as well — not covered by the finding recorded for coroutine factories.  "
     "R5: cycle test `K in chain` (guarding a raise) holds negatively at every `chain.append(K)`; every await that passes the manager "
     "itself to the callee is dominated by a push; from a push every path to an exit passes a pop (path-sensitive on `K in chain`); "
     "in the scope generator every set-up before the yield (`+= 1`, `token = cv.set(..)`) has its undo on every path after the yield; "
@@ -118,6 +132,7 @@ class Model:
     nosuspend: set[str] = field(default_factory=set)
     cm_suspends: dict[str, bool] = field(default_factory=dict)
     cm_sites: dict[str, int] = field(default_factory=dict)
+    repo: object = None
 
 
 def _self_name(fn: ast.AST) -> str | None:
@@ -183,6 +198,7 @@ def _build_model(repo) -> Model:
         if l.kind in ("attr", "classattr") and l.nature == "contextvar":
             l.kind = "cv"
     model = Model(m, cls, methods, locs)
+    model.repo = repo
     # may-suspend summary for in-class coroutines
     changed = True
     while changed:
@@ -681,7 +697,7 @@ def _r2(chk, model: Model, views: dict[str, MethodView], store: str) -> set[str]
     mediators: set[str] = set()
     sloc = next(l for l in model.locs if l.name == store)
     helpers = {n for n, f in model.methods.items() if n != "__init__" and _writes_store_directly(f, store)}
-    sites = 0
+    sites = impls_seen = classified = 0
     for v in views.values():
         if not isinstance(v.fn, ast.AsyncFunctionDef):
             continue
@@ -737,7 +753,22 @@ def _r2(chk, model: Model, views: dict[str, MethodView], store: str) -> set[str]
                           + ("the write is under a lock but the test is not repeated inside it" if w_locked else "no lock around test+write, no awaited in-flight entry") + ")")
             chk.ob("C22.R2", f"a cached resource is created once: the test on `{store}` and the write that follows a suspension are atomic, locked, or mediated by an awaited in-flight entry",
                    verdict, m=m, node=w.ast, fn=v.fn, instance=f"create-once:{store}" + ("" if verdict else f":{mode}"), reason=reason, path=path)
+            if not verdict and tests:
+                # the window is open: *which* resources it can duplicate is part of the finding (kept as an obligation of its own,
+                # so that a recorded finding about coroutine factories does not cover a window that sync factories suspend in too)
+                open_mid: list[Node] = []
+                for t, lab in tests:
+                    starts = [x for l2, x in cfg.succ[t] if l2 == lab]
+                    for s in v.susp:
+                        if s is not w and s not in open_mid and any(s is x or s in v.after(x) for x in starts) and w in v.after(s):
+                            open_mid.append(s)
+                ni, ns = _window_factory_kinds(chk, model, v, w, tests[0][0], open_mid, store)
+                impls_seen += ni
+                classified += ns
     chk.floor("C22.R2", f"writes of the persistent store `{store}` that can follow a suspension point", sites, 1)
+    if impls_seen:
+        chk.floor("C22.R2", "descriptor implementations of the method awaited inside an open create-once window (`<descriptor>.resolve(self)`)", impls_seen, 2)
+        chk.floor("C22.R2", "suspension points classified inside them (factory await under a coroutine-function test, re-entrant dependency resolution)", classified, 2)
     return mediators
 
 
@@ -792,6 +823,171 @@ def _awaits_alias_of(fn: ast.AST, aw: ast.Await, sn: str | None, name: str) -> b
                     if isinstance(tg, ast.Name) and tg.id == x.id:
                         return True
     return False
+
+
+# --------------------------------------------------------------- R2: which factories suspend inside an open window
+
+ASYNC_TESTS = ("iscoroutinefunction", "isawaitable", "iscoroutine")
+AWAITABLE_TYPES = ("Awaitable", "Coroutine")
+
+
+def _is_coroutine_test(e: ast.AST) -> bool:
+    """`e` holds only for a factory that is a coroutine function / a result that is awaitable."""
+    if isinstance(e, ast.Call):
+        if last(call_name(e)) in ASYNC_TESTS:
+            return True
+        if last(call_name(e)) == "isinstance" and len(e.args) == 2:
+            ts = e.args[1].elts if isinstance(e.args[1], ast.Tuple) else [e.args[1]]
+            return bool(ts) and all(last(dotted(t)) in AWAITABLE_TYPES for t in ts)
+    return False
+
+
+def _coroutine_flags(cls: ast.ClassDef) -> set[str]:
+    """Attributes of the descriptor class every assignment of which stores the outcome of a coroutine-function test
+    (`self._is_async = inspect.iscoroutinefunction(factory)`)."""
+    vals: dict[str, list[ast.AST]] = {}
+    for f in cls.body:
+        if not isinstance(f, FuncNode):
+            continue
+        sn = _self_name(f)
+        for s in walk_shallow(f):
+            tgts, val = [], None
+            if isinstance(s, ast.Assign):
+                tgts, val = s.targets, s.value
+            elif isinstance(s, (ast.AnnAssign, ast.AugAssign)):
+                tgts, val = [s.target], s.value
+            for tg in tgts:
+                if isinstance(tg, ast.Attribute) and isinstance(tg.value, ast.Name) and tg.value.id == sn:
+                    vals.setdefault(tg.attr, []).append(expand(val, s) if val is not None and not isinstance(s, ast.AugAssign) else ast.Constant(value=None))
+    return {a for a, vs in vals.items() if vs and all(_is_coroutine_test(x) for x in vs)}
+
+
+def _factory_kind(cfg: CFG, n: Node, sn: str | None, flags: set[str]) -> str:
+    """'async' when the node runs only for a coroutine factory, 'sync' when only for a non-coroutine one, 'any' otherwise."""
+    for text, pol in facts_at(cfg, n, expand_locals=True, labels_excluded=NOEXC):
+        try:
+            e = ast.parse(text, mode="eval").body
+        except SyntaxError:
+            continue
+        hit = _is_coroutine_test(e) or (isinstance(e, ast.Attribute) and isinstance(e.value, ast.Name) and e.value.id == sn and e.attr in flags)
+        if hit:
+            return "async" if pol else "sync"
+    return "any"
+
+
+def _descriptor_suspensions(model: Model, cls: ast.ClassDef, fn: ast.AST, mgr: set[str], ctx: str, seen: set[str], out: list) -> None:
+    """Suspension points of a descriptor method and of the methods of its class it awaits.  Each is recorded as
+    (class, method, ast node, kind) with kind 'reentrant' (awaits the manager again / hands it on: suspends only if a
+    dependency does), 'async' (runs only for a coroutine factory), 'sync' or 'any'."""
+    if not isinstance(fn, ast.AsyncFunctionDef) or fn.name in seen:
+        return  # a plain `def` runs to completion: it cannot suspend the task
+    seen = seen | {fn.name}
+    sn = _self_name(fn)
+    own = {f.name: f for f in cls.body if isinstance(f, FuncNode)}
+    flags = _coroutine_flags(cls)
+    mgr_coros = {k for k, f in model.methods.items() if isinstance(f, ast.AsyncFunctionDef)}
+    cfg = CFG(fn)
+    for n in cfg.nodes:
+        if n.ast is None:
+            continue
+        kind = None
+        if n.kind in ("with", "iter") and isinstance(n.ast, (ast.AsyncWith, ast.AsyncFor)):
+            kind = _factory_kind(cfg, n, sn, flags) if ctx == "any" else ctx
+            out.append((cls.name, fn.name, n.ast, kind))
+        for x in exprs_in_node(n):
+            if not isinstance(x, ast.Await):
+                continue
+            kind = _factory_kind(cfg, n, sn, flags) if ctx == "any" else ctx
+            c = x.value
+            if isinstance(c, ast.Call):
+                args = list(c.args) + [k.value for k in c.keywords]
+                passed = [a for a in args if isinstance(expand(a, x), ast.Name) and expand(a, x).id in mgr]
+                if isinstance(c.func, ast.Attribute) and isinstance(c.func.value, ast.Name) and c.func.value.id == sn and c.func.attr in own:
+                    callee = own[c.func.attr]
+                    names = [a.arg for a in callee.args.posonlyargs + callee.args.args][1:]
+                    cm = set()
+                    for i, a in enumerate(c.args):
+                        if a in passed and i < len(names):
+                            cm.add(names[i])
+                    for k in c.keywords:
+                        if k.value in passed and k.arg:
+                            cm.add(k.arg)
+                    _descriptor_suspensions(model, cls, callee, cm, kind, seen, out)
+                    continue
+                recv = expand(c.func.value, x) if isinstance(c.func, ast.Attribute) else None
+                if isinstance(recv, ast.Name) and recv.id in mgr and c.func.attr in mgr_coros:
+                    out.append((cls.name, fn.name, x, "reentrant"))
+                    continue
+                if passed:
+                    out.append((cls.name, fn.name, x, "reentrant"))
+                    continue
+            out.append((cls.name, fn.name, x, kind))
+
+
+def _window_factory_kinds(chk, model: Model, v: MethodView, w: Node, t: Node, mid: list[Node], store: str) -> tuple[int, int]:
+    """The create-once window `test on store -> suspension -> write` of `v` is open (no lock, no awaited in-flight entry).
+    It duplicates exactly the resources whose creation *suspends* inside it.  Decide whether that set is limited to
+    coroutine factories (what the window is recorded for) or contains sync factories as well."""
+    m, repo = model.m, model.repo
+    offenders: list[tuple[str, ast.AST, str]] = []
+    impls = classified = 0
+    for s in mid:
+        if s.kind in ("with", "iter") and isinstance(s.ast, (ast.AsyncWith, ast.AsyncFor)):
+            offenders.append((f"{CLS}.{v.name}", s.ast, "any"))
+            continue
+        for x in exprs_in_node(s):
+            if not isinstance(x, ast.Await) or not v._may_suspend(x):
+                continue
+            c = x.value
+            disp = isinstance(c, ast.Call) and isinstance(c.func, ast.Attribute) and not (isinstance(c.func.value, ast.Name) and c.func.value.id == v.sn) \
+                and any(isinstance(a, ast.Name) and a.id == v.sn for a in list(c.args) + [k.value for k in c.keywords])
+            if not disp:
+                if isinstance(c, ast.Call) and isinstance(c.func, ast.Attribute) and isinstance(c.func.value, ast.Name) and c.func.value.id == v.sn and c.func.attr in model.methods:
+                    continue  # the manager's own coroutine (recursion into this window): classified where it is defined
+                offenders.append((f"{CLS}.{v.name}", x, "any"))
+                continue
+            meth = c.func.attr
+            found = []
+            for _ref, cm, cdef in repo.all_classes():
+                if not (cm.name == PKG or cm.name.startswith(PKG + ".")):
+                    continue
+                f = next((b for b in cdef.body if isinstance(b, FuncNode) and b.name == meth), None)
+                if f is None or any(last(dotted(b)) == "Protocol" for b in cdef.bases):
+                    continue
+                found.append((cm, cdef, f))
+            if not found:
+                raise AnchorError(f"C22.R2: no class of `{PKG}` implements `{meth}` awaited inside the create-once window of {v.name} (unrecognised idiom)")
+            for cm, cdef, f in found:
+                impls += 1
+                chk.note_fn(cm, f)
+                names = [a.arg for a in f.args.posonlyargs + f.args.args][1:]
+                mgr = {names[i] for i, a in enumerate(c.args) if isinstance(a, ast.Name) and a.id == v.sn and i < len(names)}
+                mgr |= {k.arg for k in c.keywords if isinstance(k.value, ast.Name) and k.value.id == v.sn and k.arg}
+                got: list = []
+                _descriptor_suspensions(model, cdef, f, mgr, "any", set(), got)
+                classified += len(got)
+                for cname, fname, node, kind in got:
+                    if kind in ("sync", "any"):
+                        offenders.append((f"{cname}.{fname}", node, kind))
+    ok = not offenders
+    reason = ""
+    node = w.ast
+    if offenders:
+        where, node0, kind = offenders[0]
+        txt = " ".join(ast.unparse(node0).split())[:80] if not isinstance(node0, (ast.AsyncWith, ast.AsyncFor)) else f"async {'with' if isinstance(node0, ast.AsyncWith) else 'for'} …"
+        if module_of(node0) is m:
+            node = node0
+        reason = (f"sync factories suspend inside the unlocked create-once window: `{txt}` ({where}, line {node0.lineno}) is reached "
+                  + ("when the factory is *not* a coroutine function" if kind == "sync" else "whatever the kind of factory")
+                  + f", and it lies between `{' '.join(ast.unparse(t.ast.test).split())[:60]}` (line {t.line}) and the write of `{store}` (line {w.line}) of {v.name}: every step task that arrives meanwhile also finds the "
+                  f"resource missing and runs the factory again, so a cached sync-factory resource is created several times and the steps get different objects.  "
+                  f"Call sync factories inline, or close the window (per-name lock with a re-check, or an awaited in-flight entry)"
+                  + (f"; {len(offenders) - 1} more such suspension point(s)" if len(offenders) > 1 else ""))
+    chk.ob("C22.R2", f"while the create-once window on `{store}` is open, only a coroutine factory can suspend inside it: every suspension point reachable through the awaited "
+           f"descriptor method is the await of a factory tested to be a coroutine function, or the re-entrant resolution of a dependency; sync factories run inline "
+           f"(a cached sync-factory resource is then created atomically with respect to the other step tasks)", ok,
+           m=m, node=node, fn=v.fn, instance=f"create-once:{store}:sync-factory-inline", reason=reason)
+    return impls, classified
 
 
 # ------------------------------------------------------------------------------------------- R5
@@ -1010,7 +1206,7 @@ def _class_text() -> str:
     # the task-local resolution record and its ContextVar (when present) belong to the replaced block
     for marker in ("class _Resolution", "_RESOLUTION:", "_RESOLUTION ="):
         j = src.find("\n" + marker)
-        if 0 <= j + 1 < i:
+        if j >= 0 and j + 1 < i:
             i = j + 1
     return src[i:]
 
@@ -1432,4 +1628,47 @@ TWINS = [
     Twin("benign: chain through a local alias", _P, "        state.resolving.append(resource.name)\n        try:", "        chain_ = state.resolving\n        state.resolving.append(resource.name)\n        try:", None),
     Twin("benign: scope test written the other way round", _P, "        if current is not None and current.manager is self:\n", "        if not (current is None or current.manager is not self):\n", None),
     Twin("benign: set() writes by subscript", _P, "        self.resources.update({name: val})", "        self.resources[name] = val", None),
+]
+
+# ---- open create-once window: which factories suspend inside it (seed S61 and its class)
+_SYNC_CALL = "            result = cast(Callable[..., T], self._factory)(**args)\n"
+_TO_THREAD = "            result = await asyncio.to_thread(cast(Callable[..., T], self._factory), **args)\n"
+_BRANCH = ("        if self._is_async:\n            result = await cast(Callable[..., Awaitable[T]], self._factory)(**args)\n        else:\n" + _SYNC_CALL)
+_K_SYNC = "C22.R2|workflows.resource:ResourceManager._get|create-once:resources:sync-factory-inline"
+
+
+def _tail_from(marker: str) -> str:
+    try:
+        src = (repo_root() / _P).read_text(encoding="utf-8")
+    except OSError:
+        return "\0resource.py missing"
+    i = src.find(marker)
+    return src[i:] if i >= 0 else "\0marker missing"
+
+
+_TAIL = _tail_from(_SYNC_CALL)
+
+TWINS += [
+    Twin("sync factories run through asyncio.to_thread (seed S61)", _P, _SYNC_CALL, _TO_THREAD, _K_SYNC),
+    Twin("sync factories run through loop.run_in_executor", _P, _SYNC_CALL,
+         "            result = await asyncio.get_running_loop().run_in_executor(None, functools.partial(cast(Callable[..., T], self._factory), **args))\n", _K_SYNC),
+    Twin("every factory call preceded by a yield to the loop", _P, "        if self._is_async:\n            result = await cast(",
+         "        await asyncio.sleep(0)\n        if self._is_async:\n            result = await cast(", _K_SYNC),
+    Twin("config-backed (always cached) resources validated in a worker thread", _P, "        return self.call()\n", "        return await asyncio.to_thread(self.call)\n", _K_SYNC),
+    Twin("benign: a second flag derived from the coroutine-function test is stored and not used", _P, "        self._is_async = inspect.iscoroutinefunction(factory)\n",
+         "        self._is_async = inspect.iscoroutinefunction(factory)\n        self._offload = not self._is_async\n", None),
+    Twin("sync factories offloaded under a flag derived from the negated test", _P, _BRANCH,
+         "        offload = not inspect.iscoroutinefunction(self._factory)\n        if offload:\n" + _TO_THREAD
+         + "        else:\n            result = await cast(Callable[..., Awaitable[T]], self._factory)(**args)\n", _K_SYNC),
+    Twin("benign: coroutine-function test made at the call instead of in __init__", _P, "        if self._is_async:\n            result = await cast(",
+         "        if inspect.iscoroutinefunction(self._factory):\n            result = await cast(", None),
+    Twin("benign: sync branch first", _P, _BRANCH,
+         "        if not self._is_async:\n" + _SYNC_CALL + "        else:\n            result = await cast(Callable[..., Awaitable[T]], self._factory)(**args)\n", None),
+    Twin("benign: call first, await the result when it is awaitable", _P, _BRANCH,
+         "        result = self._factory(**args)\n        if inspect.isawaitable(result):\n            result = await result\n", None),
+    Twin("benign: dependency resolution inlined into call", _P, "        args = await self._resolve_dependencies(resource_manager)\n",
+         "        args = {}\n        for pname, dep, ann in self.get_dependencies():\n            dep.set_type_annotation(ann)\n            dep.set_localns(self._localns)\n"
+         "            args[pname] = await resource_manager.get(dep)\n", None),
+    Twin("nearest harmless: sync factories in a worker thread, creation under the per-name lock (window closed)", _P, _TAIL,
+         _TAIL.replace(_SYNC_CALL, _TO_THREAD, 1).replace(_OLD, _FIXED, 1), None),
 ]
